@@ -229,6 +229,26 @@ func checkBLSSubsets(s *out.Sink, c stackCfg, shares map[uint16][]byte, digests 
 			if err != nil || v.Verify(d, agg) != nil {
 				s.Violate("C01", fmt.Sprintf("signers %v (n=%d, t=%d): aggregated signature does not verify under the threshold public key", S, c.n, c.t), desc)
 			}
+			// the same signers listed in another (arrival) order: the combiner of the public API gets what it is handed
+			if len(S) >= 2 {
+				P := append([]uint16(nil), S...)
+				for i, j := 0, len(P)-1; i < j; i, j = i+1, j-1 {
+					P[i], P[j] = P[j], P[i]
+				}
+				if len(P) >= 3 {
+					P[0], P[1] = P[1], P[0]
+				}
+				var sigsP [][]byte
+				for _, id := range P {
+					sigsP = append(sigsP, partial[id])
+				}
+				s.Count("bls/subset-verify-arrival-order")
+				s.N++
+				agg, err := v.AggregateSignatures(sigsP, append([]uint16(nil), P...))
+				if err != nil || v.Verify(d, agg) != nil {
+					s.Violate("C01", fmt.Sprintf("signers listed as %v (n=%d, t=%d): aggregated signature does not verify under the threshold public key", P, c.n, c.t), desc)
+				}
+			}
 		}
 	}
 }
